@@ -176,6 +176,15 @@ def configs(tier, seed):
     for c in base:
         for a in (ANALYSES if (len(c['components']) <= 2 or tier == 'thorough') else rng.sample(ANALYSES, 2)):
             cfgs.append(dict(c, analysis=a))
+    # sinusoidal sources whose own frequency is 0 (frequency class 0): a phasor A e^{j phi} at w = 0, A cos(phi) in the DC analysis
+    rz = random.Random(seed + 1)
+    acs = [c for c in base if any(it[3] in ('Vac', 'Vacr', 'Iac', 'Iacg') for it in c['components'])]
+    for c in (acs if tier == 'thorough' else rz.sample(acs, min(len(acs), 150))):
+        comps = list(c['components'])
+        k = next(i for i, it in enumerate(comps) if it[3] in ('Vac', 'Vacr', 'Iac', 'Iacg'))
+        comps[k] = tuple(comps[k][:4]) + (0,)
+        for a in (('complex', 'zero', True), ('complex', 'sym', False), ('dc',)):
+            cfgs.append(dict(c, components=comps, analysis=a))
     cand = [c for c in cfgs if c['analysis'][0] == 'complex' and c['analysis'][1] == 'zero' and any(it[3] in ('Vdc', 'Idc') for it in c['components'])]
     twins = [dict(c, twin=True) for c in rng.sample(cand, min(30, len(cand)))]
     return cfgs + twins, None
